@@ -3,7 +3,7 @@
    Z/N/positive/nat stay Coq datatypes.  No Extract Constant / Extract Inductive of our own. *)
 Require Extraction.
 Require Import ExtrOcamlBasic.
-From Verif Require Import Lib.Bytes Model.IPRange Model.Path Model.Fs Model.Session Model.IsoRead Model.Crypt Model.Listener Model.Timeout.
+From Verif Require Import Lib.Bytes Model.IPRange Model.Path Model.Fs Model.Session Model.IsoRead Model.Crypt Model.Listener Model.Timeout Model.Detect.
 
 Extraction Language OCaml.
 Extraction "model.ml"
@@ -13,5 +13,6 @@ Extraction "model.ml"
   IsoRead.iso_run IsoRead.iso_read
   Listener.lrun
   Timeout.tserve
+  Detect.open_file Detect.kind_read
   Crypt.new_encrypted Crypt.crypt_run Crypt.crypt_read_at
   Session.serve_all Session.step Session.parse_request Session.held.
